@@ -6,7 +6,11 @@ use serde_json::{json, Value};
 
 use crate::explore::{Acc, Findings, Found, Opts};
 
-pub const VERIF_DIR: &str = "/verif";
+/// Root of the verification tree (the driver passes its own location so that
+/// background snapshots do not write into /verif).
+pub fn verif_dir() -> String {
+    std::env::var("VERIF_DIR").unwrap_or_else(|_| "/verif".to_string())
+}
 
 #[derive(Clone, Debug)]
 pub struct Cli {
@@ -60,7 +64,7 @@ pub fn opts_for(cli: &Cli) -> Opts {
         prop: cli.prop.clone(),
         deadline: crate::explore::default_deadline(&cli.tier),
         threads: cli.threads,
-        findings: Findings::load(&format!("{VERIF_DIR}/known_findings.json")),
+        findings: Findings::load(&format!("{}/known_findings.json", verif_dir())),
         continue_after_violation: false,
         trace_file: cli.trace_file.clone(),
         seq_from: cli.seq_from,
@@ -81,7 +85,7 @@ pub struct Finish<'a> {
 }
 
 fn write_replay(f: &Finish<'_>, k: usize, found: &Found) -> String {
-    let dir = PathBuf::from(format!("{VERIF_DIR}/replays/{}", f.cli.prop));
+    let dir = PathBuf::from(format!("{}/replays/{}", verif_dir(), f.cli.prop));
     let _ = std::fs::create_dir_all(&dir);
     let path = dir.join(format!("{}-{}-{}.json", f.cli.prop, f.bin, k));
     let v = json!({
@@ -177,7 +181,7 @@ pub fn finish(f: Finish<'_>, acc: &mut Acc, opts: &Opts) -> i32 {
         "wall_s": wall,
         "violations": acc.violations.len(),
     });
-    let dir = format!("{VERIF_DIR}/evidence/parts");
+    let dir = format!("{}/evidence/parts", verif_dir());
     let _ = std::fs::create_dir_all(&dir);
     std::fs::write(format!("{dir}/{}.{}.json", f.cli.prop, f.bin), serde_json::to_string_pretty(&part).unwrap())
         .expect("cannot write evidence part");
